@@ -269,6 +269,30 @@ def check_cmp(crate, rep, cfg):
                 (rep.ok if ok else rep.bad)("C13.CMP", key, bd.where(bb, idx), what if ok else what + " — VIOLATED: %s %s->%s makes the comparison depend "
                                             "on the representation" % (rv["ck"], rv["from"], rv["to"]))
     rep.floor("C13.CMP", "numeric casts in the comparison skeleton [%s]" % cfg, n, 5)
+    # float x float: IEEE comparison (`-0.0 == 0.0`, so neither is less), the documented NaN placement only where that is undecided.
+    # A bit-pattern order (total_cmp, to_bits, integer compare of the bits) separates -0.0 from 0.0 and splits NaNs by sign.
+    for p in CMP_FNS:
+        b = crate.one(p)
+        for bd in crate.with_closures(b):
+            bits = sorted({callee_def(t).rsplit("::", 1)[-1] for bb, t in bd.calls() if callee_def(t).rsplit("::", 1)[-1] in ("total_cmp", "to_bits", "from_bits", "to_ne_bytes", "to_le_bytes", "to_be_bytes")
+                           and ("f64" in callee_def(t) or "f32" in callee_def(t))})
+            rep.add("C13.CMP", "C13.CMP:%s:no-bit-pattern-order" % bd.path, not bits, bd.where(0), "floats are never compared through their bit pattern"
+                    + ("" if not bits else " — VIOLATED: %s" % bits))
+    po = crate.one(CMP_FNS[1])
+    ff = [bb for bb, t in po.calls() if callee_def(t) == "std::cmp::PartialOrd::partial_cmp" and t["f"].get("self_ty") in ("f64", "&f64")]
+    ok = len(ff) == 1
+    why = "%d IEEE partial_cmp calls on f64" % len(ff)
+    if ok:
+        # its None (a NaN is involved) is the only case decided by hand, through is_nan of the two operands
+        import rrec
+        se = rrec.ok_edges_of_call(po, crate, ff[0])
+        alt = [t for bb, t in po.calls() if callee_def(t).rsplit("::", 1)[-1] in ("unwrap_or_else", "unwrap_or", "map_or_else", "or_else")
+               and any(l.kind == "call" and l.detail[2] == ff[0] for l in Tracer(po).operand(t["args"][0]))]
+        nan_tests = sum(1 for bd in crate.with_closures(po) for bb, t in bd.calls() if callee_def(t).endswith("<impl f64>::is_nan"))
+        ok = (bool(se) or bool(alt)) and nan_tests >= 2
+        why = "the undecided case is not settled by is_nan of both operands"
+    rep.add("C13.CMP", "C13.CMP:float-float:ieee-then-nan-placement", ok, po.where(ff[0]) if ff else po.where(0), "Value::partial_cmp compares two floats with f64::partial_cmp and "
+            "places NaNs by is_nan only when that answers None" + ("" if ok else " — VIOLATED: " + why))
     # integer x integer goes through as_u128 / as_i128 only (no direct payload comparison across widths)
     for p in CMP_FNS[:2]:
         b = crate.one(p)
